@@ -35,6 +35,42 @@ impl<'a> WrappedChainDB<'a> {
     }
 }
 
+/// verif hooks: one synchronous pass of the builder (the pass takes its snapshot once, as in
+/// production), and a gate called before each block of a pass so that a harness can change the
+/// chain between two iterations the way a concurrent chain service would.
+#[cfg(feature = "verif-hooks")]
+pub mod verif {
+    use std::sync::Mutex;
+
+    type Gate = Box<dyn FnMut(u64) + Send>;
+    static GATE: Mutex<Option<Gate>> = Mutex::new(None);
+
+    /// Install (or remove) the gate
+    pub fn set_gate(gate: Option<Gate>) {
+        *GATE.lock().expect("lock") = gate;
+    }
+
+    pub(crate) fn gate(block_number: u64) {
+        // the gate is taken out while it runs: it may trigger chain work but not another pass
+        let taken = GATE.lock().expect("lock").take();
+        if let Some(mut g) = taken {
+            g(block_number);
+            let mut slot = GATE.lock().expect("lock");
+            if slot.is_none() {
+                *slot = Some(g);
+            }
+        }
+    }
+}
+
+#[cfg(feature = "verif-hooks")]
+impl BlockFilter {
+    /// One pass of `build_filter_data`
+    pub fn verif_build_once(&self) {
+        self.build_filter_data()
+    }
+}
+
 impl BlockFilter {
     /// Create a new block filter service
     pub fn new(shared: Shared) -> Self {
@@ -108,6 +144,8 @@ impl BlockFilter {
         };
 
         for block_number in start_number..=tip_header.number() {
+            #[cfg(feature = "verif-hooks")]
+            verif::gate(block_number);
             if ckb_stop_handler::has_received_stop_signal() {
                 info!("ckb has received stop signal, BlockFilter exit now");
                 return;
